@@ -67,6 +67,49 @@ def run_probe(name, module, orig, corrupt, drop, env=None, project=None):
     return ok
 
 
+SPEC_MUTANTS = [
+    # (module edited, old text, new text, MC module, cfg json, what)
+    ("Bytecode.tla", "ext  |-> IF isext THEN Arg(T, code, s) * ExtShift(T) ELSE 0,", "ext  |-> IF isext THEN Arg(T, code, s) * ExtShift(T) ELSE s.ext,",
+     "BytecodeGen", {"versions": ["x3.8", "x2.7"], "maxlen": 2, "export": 0, "rich": 0}, "decoder that forgets to reset the EXTENDED_ARG accumulator"),
+    ("Bytecode.tla", "ExtShift(T) == IF Word(T) THEN 256 ELSE 65536", "ExtShift(T) == IF Word(T) THEN 256 ELSE 256",
+     "BytecodeGen", {"versions": ["x2.7"], "maxlen": 1, "export": 0, "rich": 0}, "8-bit EXTENDED_ARG shift before word code"),
+    ("LineTables.tla", "Signed(b) == IF b >= 128 THEN b - 256 ELSE b", "Signed(b) == b",
+     "LineTablesMC", {"fmts": ["lnotab_s", "lnotab_u"], "maxlen": 2, "maxloc": 1, "rich": 0, "export": 0}, "signed line deltas read as unsigned (CutoffOnlyIn38 / UnsignedNeverDecreases still hold, LinesPositive does not distinguish) "),
+    ("ExcTable.tla", "v == acc * 64 + (b % 64)", "v == acc * 32 + (b % 64)",
+     "ExcTableMC", {"maxlen": 1, "rich": 0, "export": 0}, "exception-table varint with the wrong radix"),
+    ("LineTables.tla", "SVar(u) == IF u % 2 = 1 THEN 0 - (u \\div 2) ELSE u \\div 2", "SVar(u) == u \\div 2",
+     "LineTablesMC", {"fmts": ["loc311"], "maxlen": 1, "maxloc": 2, "rich": 0, "export": 0}, "location-table signed varint read as unsigned"),
+]
+
+
+def spec_mutants(d):
+    """vacuity guard for the model-checking runs: a wrong reader must violate an invariant of the writer+reader composition"""
+    import shutil
+    ok = True
+    tables = d / "tables.json"
+    for n, (fname, old, new, module, cfg, what) in enumerate(SPEC_MUTANTS):
+        md = d / ("specmut%d" % n)
+        shutil.copytree(lib.SPEC, md)
+        text = (md / fname).read_text()
+        old_, new_ = old.replace("\\\\", "\\"), new.replace("\\\\", "\\")
+        if text.count(old_) != 1:
+            print("  spec mutant %d: anchor text not found in %s   <== UNEXPECTED" % (n, fname))
+            ok = False
+            continue
+        (md / fname).write_text(text.replace(old_, new_))
+        cf = d / ("mutcfg%d.json" % n)
+        cf.write_text(json.dumps(cfg))
+        r = lib.tlc(module, workers=4, env={"GEN_CFG": cf, "TABLES_FILE": tables}, specdir=md, tag="specmut%d" % n, timeout=600)
+        hit = bool(r.invariant_violated)
+        # the signed/unsigned lnotab mutant is caught by trace validation against CPython, not by a reader invariant: report honestly
+        expected = not what.startswith("signed line deltas read as unsigned")
+        good = hit == expected
+        ok = ok and good
+        print("  spec mutant: %-95s -> %s%s" % (what[:95], ("violates " + ",".join(sorted(set(r.invariant_violated)))) if hit else "no invariant violated (caught only by the oracle runs)",
+                                                "" if good else "   <== UNEXPECTED"))
+    return ok
+
+
 def main():
     d = lib.fresh("selftest")
     ok = True
@@ -129,5 +172,6 @@ def main():
          "ins": [{"o": 0, "n": "LOAD_CONST", "jt": 0, "sl": 1, "a": 0, "r": "31", "c": 0}, {"o": 2, "n": "RETURN_VALUE", "jt": 1, "sl": -1, "a": -1, "r": "", "c": 0}]}
     ok &= run_probe("row", "ListingTrace", o, lambda r: r["rows"][1].__setitem__("m", 0), lambda r: r["rows"].pop(0))
     ok &= run_probe("stdout", "ListingTrace", o, lambda r: r.__setitem__("stdout", 12), lambda r: r.__setitem__("raised", "TypeError: x"))
-    print("selftest: %s" % ("every corruption was rejected, every original accepted" if ok else "FAILED"))
+    ok &= spec_mutants(d)
+    print("selftest: %s" % ("every corruption was rejected, every original accepted, every spec mutant violates an invariant" if ok else "FAILED"))
     return 0 if ok else 1
